@@ -1,5 +1,6 @@
 import OW.Util.Dates
 import OW.Spec.Calendar
+import OW.Kernels.DateGenerator
 /-!
 C19 — the date generator follows the proleptic Gregorian calendar.
 Only property theorems and the lemmas they need. Core Lean only
@@ -181,6 +182,32 @@ theorem ordinal_inj {d m y d' m' y' : Int} (hv : Valid d m y) (hv' : Valid d' m'
   subst hm
   unfold ordinal at h
   exact ⟨by omega, rfl, rfl⟩
+
+/-! ### The catalogue model: float parameters truncated with `int()`, results converted back -/
+
+section Model
+open OW OW.Kernels
+
+/-- **model_spec — the catalogue model `DateGenerator` on integer-valued parameters.** In any arithmetic in which `int(·)` of
+an integer-valued number gives the integer back (`htrunc`; true at ℝ — `OW.Props.C19Model` — and of float64 below 2⁵³), with
+parameters `day = d`, `month = m`, `year = y` forming a valid date and ANY tick series, `DateGenerator.model.run` does not panic
+and its four output series (date, month, year, dayOfYear) are `rows.map ofInt` of exactly the rows of `generator_spec`: one
+row per tick, the `k`-th being the valid date with ordinal `ordinal start + k` and its day of year. -/
+theorem model_spec {α : Type} [Num α] (htrunc : ∀ n : Int, Num.toInt (Num.ofInt n : α) = n)
+    (d m y : Int) (hv : Valid d m y) (tick : List α) :
+    ∃ rows : List Row, run tick.length ⟨d, m, y⟩ = some rows ∧ rows.length = tick.length ∧
+      (DateGenerator.model (α := α)).run [Num.ofInt d, Num.ofInt m, Num.ofInt y] [tick] [] =
+        .ok { outputs := [rows.map (fun r => Num.ofInt r.date), rows.map (fun r => Num.ofInt r.month),
+                          rows.map (fun r => Num.ofInt r.year), rows.map (fun r => Num.ofInt r.doy)], states := [] } ∧
+      ∀ k (hk : k < rows.length),
+        Valid rows[k].date rows[k].month rows[k].year ∧
+        ordinal rows[k].date rows[k].month rows[k].year = ordinal d m y + k ∧
+        rows[k].doy = ordinal rows[k].date rows[k].month rows[k].year - jan1 rows[k].year + 1 := by
+  obtain ⟨rows, hr, hl, hrows⟩ := generator_spec tick.length ⟨d, m, y⟩ hv
+  refine ⟨rows, hr, hl, ?_, hrows⟩
+  simp only [DateGenerator.model, htrunc, hr]
+
+end Model
 
 /-! ### Non-vacuity and sanity examples -/
 
